@@ -467,6 +467,9 @@ func c03ExecFrom(c *fw.Ctx, prefix string, hist []string) (ok bool) {
 }
 
 func c03Run1(c *fw.Ctx) {
+	{
+		interfRun(c, "C03") // statement-level interleavings of handlers on several connections (subprocess)
+	}
 	// interleavings of the pairing handlers of several connections, explored under the cooperative scheduler in a
 	// subprocess (the last worker shards run one part each, next to their share of the trees)
 	if part := c.NShards - 1 - c.Shard; part < pschedParts || c.NShards == 1 {
